@@ -7,6 +7,8 @@ cd "$(dirname "$0")"
 REPO=${VERIF_REPO:-/repo}
 mkdir -p coq/theories/Gen evidence replays
 /venv/bin/python translators/py2coq_bits.py "$REPO" coq/theories/Gen/BitsGen.v || echo "setup: BitsGen refused"
+PYTHONPATH="$REPO" /venv/bin/python translators/stdlib2coq.py "$REPO" arbiters coq/theories/Gen/ArbiterGen.v || echo "setup: ArbiterGen refused"
+PYTHONPATH="$REPO" /venv/bin/python translators/stdlib2coq.py "$REPO" queues coq/theories/Gen/QueueGen.v || echo "setup: QueueGen refused"
 cd coq
 { echo "-Q theories PV"; find theories -name '*.v' | sort; } > _CoqProject
 coq_makefile -f _CoqProject -o Makefile >/dev/null
